@@ -676,8 +676,21 @@ macro_rules! impl_graph_traits {
                 &mut self,
                 n: <$graph_type<N, E, Ix> as GraphBase>::NodeId,
             ) -> Option<N> {
+                // A node that is not in the graph has no position to give up: leave the order alone.
+                self.graph.node_weight(n)?;
+                // `Graph` moves its last node into the freed index (`StableGraph` does not).
+                let last = <$graph_type<N, E, Ix> as NodeIndexable>::from_index(
+                    &self.graph,
+                    self.graph.node_bound() - 1,
+                );
                 self.order_map.remove_node(n, &self.graph);
-                self.graph.remove_node(n)
+                let weight = self.graph.remove_node(n);
+                if last != n && self.graph.node_weight(last).is_none() {
+                    // the node formerly known as `last` is now `n`: it keeps its topological position
+                    let pos = self.order_map.get_position(last, &self.graph);
+                    self.order_map.set_position(n, pos, &self.graph);
+                }
+                weight
             }
         }
 
